@@ -1,7 +1,7 @@
 """Property -> units / stand-ins / level table (mirrors DESIGN.md §1)."""
 
 PROPS = {
-    "C01": dict(units=["RAT", "EVALOPS", "EVALARMS"], standin=True, level="proof",
+    "C01": dict(forbid_seq=[dict(cid="evalrec.bias_unread", file="src/eval.rs", seq=".acceleration_bias", what="the recursive calls of eval() in the OPERATION arm are assumed to be independent of `bias`: the field `acceleration_bias` is written and never read")], units=["RAT", "EVALOPS", "EVALARMS", "EVALOPFOLD"], standin=True, level="proof",
                 explanation="16 Rational operator impls, recip, pow, eval::{add,sub,mul,div,pow} on plain numbers (exact field operations, unbounded pow loop) proved by Verus; the OPERATION fold / NUMBER / PERCENTAGE arms of eval() are a bounded stand-in"),
     "C02": dict(units=["POWERS", "COMPOUND", "EVALOPS"], standin=True, level="proof",
                 explanation="Powers::insert representation invariant, base_units, Compound::factor <=> same dimensions, eval::{add,sub} verdict / error mapping / unit adoption proved by Verus; OP_CAST arm bounded"),
@@ -27,7 +27,7 @@ PROPS = {
                 explanation="bounded enumeration of operator sequences x parenthesisations x blank layouts against an independent precedence-climbing evaluator; proved components: op() priority table, skip bookkeeping of Parser::{count_skip,skip,eat}, operation()/value()/call_arguments() skip contracts"),
     "C08": dict(units=["DISPLAYCORE", "DISPLAYFMT"], standin=True, level="proof",
                 explanation="Display::fmt (dispatch on the magnitude; the small-fraction path with its leading-zero exponent and digit budget), format_whole and format_big are proved to write exactly small_log / whole_log / big_log into the formatter log: sign, digits of long division (frac_digits) or of the numeral of the integer part, at most `limit` after the first, the mark iff the remainder after the last printed digit is non-zero (or a cut-off integer digit is) and marks are wanted, the exponent; lemma_c08_* turn the logs into the property text (the text reads back to the value cut off toward zero at the last printed digit, mark iff non-zero digits were cut off). emit (digit step) and digits() proved in DISPLAYCORE. Assumed: BigInt::to_string is the decimal numeral, std Display impls of u8 / usize / char / BigInt; the characters produced from the events and digit limit 0 for values below one are covered by the bounded read-back stand-in only"),
-    "C11": dict(units=["POWERS", "RAT", "COMPOUND", "EVALOPS", "EVALUNIT", "EVALARMS", "LEXER", "PARSER", "GRAMMAR", "FROMSTR", "DISPLAYCORE", "DISPLAYFMT", "EVALWITHUNIT"], standin=True, level="proof",
+    "C11": dict(units=["POWERS", "RAT", "COMPOUND", "EVALOPS", "EVALUNIT", "EVALARMS", "LEXER", "PARSER", "GRAMMAR", "FROMSTR", "DISPLAYCORE", "DISPLAYFMT", "EVALWITHUNIT", "EVALOPFOLD"], standin=True, level="proof",
                 explanation="absence of overflow / failed assertion (former debug_assert!) / unwrap / out-of-bounds in every function under contract, under the stated bounds; error spans are token boundaries (LEXER + PARSER); eval() driver, Db::lookup, Display and the CLI are a bounded token-soup stand-in"),
     "C18": dict(units=["EVALFACT"], standin=True, level="proof",
                 frame_scan=dict(cid="evalfact.frame_scan", idents=["describe", "descriptions"], item_file="src/eval.rs", item="fn eval :: arm SENTENCE | WORD",
@@ -43,7 +43,7 @@ PROPS = {
 
 COMMON_TRUST = [
     "Verus 0.2026.09.13 + bundled Z3, rustc 1.98.1; single-file mode (no linking): every dependency type is a shim with assumed contracts",
-    "extraction rules of DESIGN.md §4: R1 attributes/doc comments stripped, visibility widened; R2 debug_assert -> static obligation; R3 break-value lowering; R4 `&a op &b` -> operator call; R5 for-desugaring; R6 outlining of iterator-adapter / fn-pointer expressions into assumed fns; R7 closure lifting; R8 nested fn hoisting; R9 trait-impl methods emitted as inherent methods / associated types spelled out; R10 type ascription; R11 fn renamed to dodge a Verus name clash; R12 match-arm guard / expression arm spelled as a block; R13 `mut` by-value parameter as an explicit local; R14 contract (ensures) written on a closure; R16 the block of a match arm of eval() lifted to a named fn over its free variables (NUMBER, PERCENTAGE, SENTENCE|WORD, WITH_UNIT arms, the recursive call of eval() in the last being an assumed function of the node; eval() as a whole is outside Verus); R15 `iter.all(closure)` / `values().any(closure)` replaced by the body of the default method Iterator::all / ::any with the closure body at its single call (bases_match, has_numerator); R15 also: `for d in emit(..).take(n)` as the body of Take::next inlined over the lifted closure emit_step (format_whole); R5 also `for _ in a..b` as a counting while loop; R17 `fmt::Display::fmt(x, f)` / `x.fmt(f)` spelled `f.put(x)` (generic over what the argument type shows); R17 `write!(w, FMT, a..)` / `writeln!` spelled as a method call `w.put<k>(FMT, newline, a..)` on a writer shim that logs the piece (lifted `Ok(value)` arm of main())",
+    "extraction rules of DESIGN.md §4: R1 attributes/doc comments stripped, visibility widened; R2 debug_assert -> static obligation; R3 break-value lowering; R4 `&a op &b` -> operator call; R5 for-desugaring; R6 outlining of iterator-adapter / fn-pointer expressions into assumed fns; R7 closure lifting; R8 nested fn hoisting; R9 trait-impl methods emitted as inherent methods / associated types spelled out; R10 type ascription; R11 fn renamed to dodge a Verus name clash; R12 match-arm guard / expression arm spelled as a block; R13 `mut` by-value parameter as an explicit local; R14 contract (ensures) written on a closure; R18 fn-pointer dispatch defunctionalised: `let op = match k { OP_ADD => add, .. }; op(span, a, b)` becomes a tag and `call_op(tag, span, a, b)`, a verified `match` on the tag calling the same-named functions (OPERATION arm); R16 the block of a match arm of eval() lifted to a named fn over its free variables (NUMBER, PERCENTAGE, SENTENCE|WORD, WITH_UNIT, OPERATION arms, the recursive call of eval() in the last being an assumed function of the node; eval() as a whole is outside Verus); R15 `iter.all(closure)` / `values().any(closure)` replaced by the body of the default method Iterator::all / ::any with the closure body at its single call (bases_match, has_numerator); R15 also: `for d in emit(..).take(n)` as the body of Take::next inlined over the lifted closure emit_step (format_whole); R5 also `for _ in a..b` as a counting while loop; R17 `fmt::Display::fmt(x, f)` / `x.fmt(f)` spelled `f.put(x)` (generic over what the argument type shows); R17 `write!(w, FMT, a..)` / `writeln!` spelled as a method call `w.put<k>(FMT, newline, a..)` on a writer shim that logs the piece (lifted `Ok(value)` arm of main())",
     "BigRational viewed as `real`, BigInt as `int` (every operation used is closed on Q); i32/u32/usize arithmetic keeps its overflow obligations (discharged under the stated bounds, never treated as mathematical)",
 ]
 
